@@ -1,0 +1,41 @@
+// Copyright © 2024 Attestant Limited.
+// Licensed under the Apache License, Version 2.0 (the "License");
+// you may not use this file except in compliance with the License.
+// You may obtain a copy of the License at
+//
+//     http://www.apache.org/licenses/LICENSE-2.0
+//
+// Unless required by applicable law or agreed to in writing, software
+// distributed under the License is distributed on an "AS IS" BASIS,
+// WITHOUT WARRANTIES OR CONDITIONS OF ANY KIND, either express or implied.
+// See the License for the specific language governing permissions and
+// limitations under the License.
+
+//go:build verif
+
+package standard
+
+import "time"
+
+// VerifAgeGenerations makes every generation in progress appear to have
+// started the given duration earlier than it did.
+func (s *Service) VerifAgeGenerations(d time.Duration) {
+	s.generationsMu.Lock()
+	defer s.generationsMu.Unlock()
+	for _, generation := range s.generations {
+		generation.processStarted = generation.processStarted.Add(-d)
+	}
+}
+
+// VerifGenerations returns the names of the generations currently tracked,
+// whether or not they have timed out.
+func (s *Service) VerifGenerations() []string {
+	s.generationsMu.RLock()
+	defer s.generationsMu.RUnlock()
+	names := make([]string, 0, len(s.generations))
+	for name := range s.generations {
+		names = append(names, name)
+	}
+
+	return names
+}
